@@ -86,7 +86,7 @@ def partner_spec(ch, x, idxs, tag, charge=None, same_dtype=True):
     dt = None
     if same_dtype and x.blocks:
         dt = str(next(iter(x.blocks.values())).dtype)
-        if dt not in ("float64", "complex128"):
+        if dt not in ("float64", "complex128", "float32", "complex64"):
             dt = "float64"
     return ch.draw(
         gen.array_specs(symm=symm_of(x), ferm=bool(x.fermionic), idxs=idxs,
